@@ -10,4 +10,10 @@ if [ ! -x /verif/bin/calcsa ] || [ -n "$(find /verif/sa -name '*.go' -newer /ver
   go build -o /verif/bin/calcsa ./cmd/calcsa || { echo "calcsa: build failed"; echo "VIOLATION property=$id replay=/verif/reports/$id-$tier.json"; exit 1; }
 fi
 mkdir -p /verif/evidence /verif/reports
-exec /verif/bin/calcsa -repo "${CALC_REPO:-/repo}" -verif /verif -property "$id" -tier "$tier"
+/verif/bin/calcsa -repo "${CALC_REPO:-/repo}" -verif /verif -property "$id" -tier "$tier"
+rc=$?
+if [ "$tier" = thorough ] && [ -z "${CALC_REPO:-}" ]; then
+  # sensitivity audit: does the check still see the seeded breakages of this property?
+  python3 /verif/tools/audit.py "$id" || true
+fi
+exit $rc
